@@ -119,6 +119,12 @@ impl RndGen {
             // up to 3 * 2^30: a single order may exceed 2^31 (the generator keeps every sum < 2^32)
             return if rng.chance(0.3) { rng.range(1 << 30, 3 << 30) as u32 } else { rng.range(1 << 27, 1 << 28) as u32 };
         }
+        // special values: powers of two and their neighbours, byte / 16-bit boundaries
+        if rng.chance(0.04) {
+            let k = rng.range(1, 20);
+            let base = 1u32 << k;
+            return (base as i64 + rng.range(0, 2) as i64 - 1).max(1) as u32;
+        }
         match rng.below(10) {
             0..=5 => rng.range(1, 10) as u32,
             6..=8 => rng.range(1, 1000) as u32,
@@ -131,7 +137,16 @@ impl RndGen {
         let rng = &mut self.rng;
         let tick = rng.range(1, p.max_tick as u64) as u32;
         let levels = *rng.pick(p.levels);
-        let t0 = if rng.chance(0.2) { rng.below(1 << 40) } else if rng.chance(0.25) { 0 } else { rng.below(1000) };
+        let t0 = if rng.chance(0.2) {
+            rng.below(1 << 40)
+        } else if rng.chance(0.25) {
+            0
+        } else if rng.chance(0.06) {
+            // around the 31/32/53/62-bit boundaries of the clock
+            (1u64 << *rng.pick(&[31u32, 32, 53, 62])) - rng.below(4)
+        } else {
+            rng.below(1000)
+        };
         let trading0 = !rng.chance(p.p_start_disabled);
         let cfg = Cfg { tick, levels, t0, trading0 };
         let max_k = ((PMAX as u64) - 1) / tick as u64; // k*tick <= PMAX-1 < PMAX
@@ -140,6 +155,11 @@ impl RndGen {
         let center_k = match mode {
             0 => 1 + rng.below(6),               // just above the lowest grid price
             1 => max_k - rng.below(6),           // just below the largest grid price
+            2 => {
+                // prices around a power of two (the price key just below / above a 2^j boundary)
+                let j = rng.range(8, 31);
+                ((1u64 << j) / tick as u64).clamp(3, max_k - 3)
+            }
             _ => rng.range(50, 100_000),
         };
         let mirror = (PMAX as u64) % (tick as u64) == 0 && rng.chance(0.12);
@@ -233,7 +253,7 @@ impl RndGen {
                 } else {
                     Some(band.price(rng))
                 };
-                let trader = if rng.chance(0.05) { rng.next() as u32 } else { rng.below(50) as u32 };
+                let trader = if rng.chance(0.05) { rng.next() as u32 } else if rng.chance(0.02) { *rng.pick(&[0u32, 255, 256, 65535, 65536, 1 << 31, u32::MAX]) } else { rng.below(50) as u32 };
                 new_ops.push(Op::Create { bid, vol, trader, price });
             } else if pick(p.w_place) {
                 let news: Vec<usize> = m.orders.iter().filter(|o| o.status == NEW).map(|o| o.id).collect();
@@ -281,7 +301,7 @@ impl RndGen {
                         queue_target = Some((bid, pr));
                     }
                 }
-                let trader = if rng.chance(0.05) { rng.next() as u32 } else { rng.below(50) as u32 };
+                let trader = if rng.chance(0.05) { rng.next() as u32 } else if rng.chance(0.02) { *rng.pick(&[0u32, 255, 256, 65535, 65536, 1 << 31, u32::MAX]) } else { rng.below(50) as u32 };
                 new_ops.push(Op::CreatePlace { bid, vol, trader, price });
             } else if pick(p.w_cancel) {
                 let act: Vec<usize> = m.orders.iter().filter(|o| o.status == ACTIVE).map(|o| o.id).collect();
